@@ -79,7 +79,7 @@ fn thread_cpu_ms() -> u64 {
 
 /// CPU-time budget of one simulated run (expected: well under 100 ms). Exceeding it is reported as
 /// "does not terminate promptly"; CPU time, not wall time, so machine load cannot raise it.
-pub const SLOW_RUN_CPU_MS: u64 = 3000;
+pub const SLOW_RUN_CPU_MS: u64 = 6000;
 
 /// distinct-case hashes kept per worker process; beyond it distinct_nontrivial is a lower bound
 pub const DISTINCT_CAP_PER_WORKER: usize = 1_500_000;
@@ -260,6 +260,11 @@ pub fn worker_main(a: WorkerArgs) -> i32 {
             }
             for (k, n) in st.fired.iter() {
                 *g.rep.fired.entry(k.to_string()).or_insert(0) += n;
+            }
+            if !slow {
+                // margin against the per-run CPU budget (keys starting with "max:" are merged by maximum)
+                let e = g.rep.counters.entry("max: slowest run, CPU ms (budget 6000)".to_string()).or_insert(0);
+                *e = (*e).max(cpu);
             }
             for (k, n) in st.counters.iter() {
                 *g.rep.counters.entry(k.to_string()).or_insert(0) += n;
@@ -451,6 +456,11 @@ pub fn run_batch(def: &CheckDef, tier: Tier, seed: u64, workers: u64, extra: &[S
                 *merged.fired.entry(k).or_insert(0) += n;
             }
             for (k, n) in r.counters {
+                if k.starts_with("max:") {
+                    let e = merged.counters.entry(k).or_insert(0);
+                    *e = (*e).max(n);
+                    continue;
+                }
                 *merged.counters.entry(k).or_insert(0) += n;
             }
             merged.trace_hashes.extend(r.trace_hashes);
